@@ -465,6 +465,15 @@ func checkHPKE(t *rapid.T, c *hpkeCase, pt, info []byte) int {
 	}
 	n := r.n + c.lowOrderForgeries(t, pt, info)
 	r.record()
+	reuseAfterRejects(t, desc, c.enc, c.dec, ct, rct, pt, info, func(x []byte) ([]byte, error) {
+		if !bytes.HasPrefix(x, prefix) {
+			return nil, fmt.Errorf("ciphertext does not start with the prefix %x", prefix)
+		}
+		if got, err := stdhpke.Open(c.stdPriv, c.stdKDF, c.stdAEAD, info, x[plen:]); err != nil || !bytes.Equal(got, pt) {
+			return got, fmt.Errorf("crypto/hpke: %v", err)
+		}
+		return hpkeref.Open(c.suite, c.sk, info, x[plen:])
+	})
 	return n
 }
 
@@ -473,7 +482,7 @@ func TestHPKE(t *testing.T) {
 		detrand.Seed(rapid.Uint64().Draw(rt, "entropy"))
 		c := drawHPKE(rt)
 		pt := drawPlaintext(rt)
-		info := gen.BytesOrNil(rt, "info", 128)
+		info := drawInfo(rt)
 		n := checkHPKE(rt, c, pt, info)
 		class := fmt.Sprintf("%s/%s/%s/%s/%s", c.kem.name, c.kdf.name, c.aead.name, c.variant, c.route)
 		evid.Add("info_"+infoClass(info), 1)
